@@ -29,6 +29,10 @@ const modPath = "github.com/textwire/textwire/v2"
 type Model struct {
 	lookupTableAt map[*ssa.Parameter]ssa.Value
 	ifCaseRes    *ifCaseResult
+	lexModeDone  bool
+	lexMode      *lexModePred
+	lexFresh     *iStruct
+	lexModeWhy   string
 	opCaseRes    *opCaseResult
 	evalWrappers  map[*ssa.Function]int
 	lenSums       map[*ssa.Function]*lenSum
